@@ -257,3 +257,67 @@ theorem msp430_text_rejected_classes (addr : BitVec 32) (w0 w1 w2 : BitVec 16) :
       by_cases hc : commented w0 w1 = true
       · simp [h1, h1', h2', hc]
       · simp [h1, h1', h2', hc]
+
+/-- **C01 (i) on the structured level, partial.**  For an accepted statement with a meaning `i` (not a jump: the
+    disassembly of a jump is rejected) and `-optimize` off: the decoder shows for the emitted words a statement that
+    means `i`; if that text is not rejected (`toStmt`) and the assembler accepts it again, the new words are
+    decoded by the architecture as `i` and shown as a statement meaning `i` again.
+    *Not proved here*: that the new words are bytewise EQUAL to the emitted ones.  (They can differ from words with
+    the same meaning only in the encoding freedom the assembler itself never uses when it emits — an immediate
+    word holding a constant-generator value; the real encode → decode → encode chain is checked byte for byte
+    by the oracle of C01 on every accepted statement of every run, and by the `rt` correspondence stream.) -/
+theorem msp430_fixpoint_structured_partial (ctx : Ctx) (hp : ctx.pass1 = false) (ha : ctx.address &&& 1 = 0)
+    (ho : ctx.optimize = false) (s0 : Stmt) (ws : List (BitVec 16)) (i : Instr) (hm : meaning s0 = some i)
+    (hnj : ∀ c t, i ≠ .jump c t) (h0 : encode ctx s0 = .ok ws) :
+    (∃ s1, reading ctx.address (ws.getD 0 0) (ws.getD 1 0) (ws.getD 2 0) = some s1 ∧ meaning s1 = some i) ∧
+    ∀ s1 ws1, toStmt ctx.address (ws.getD 0 0) (ws.getD 1 0) (ws.getD 2 0) = some s1 → encode ctx s1 = .ok ws1 →
+      meaning s1 = some i ∧ Arch.decode (ctx.address.truncate 16) ws1 = some (i, ws1.length) ∧
+      ∃ s2, reading ctx.address (ws1.getD 0 0) (ws1.getD 1 0) (ws1.getD 2 0) = some s2 ∧ meaning s2 = some i := by
+  have hd := msp430_encode_sound ctx hp ha s0 ws i (by rw [optimized_off ctx ho]; exact hm) h0
+  have hne : ws ≠ [] := by intro e; rw [e] at hd; simp [Arch.decode] at hd
+  obtain ⟨rest, hpad⟩ := pad3 ws hne
+  have hd' := decode_append _ ws [0, 0, 0] _ hd
+  rw [hpad] at hd'
+  obtain ⟨s1, hr, hms⟩ := arch_reading ctx.address _ _ _ rest i _ hd' hnj
+  refine ⟨⟨s1, hr, hms⟩, ?_⟩
+  intro s1' ws1 ht he
+  obtain ⟨i', s2, hm1, hdec, hr2, hm2⟩ := msp430_decode_encode_decode ctx hp ha ho _ _ _ s1' ht ws1 he
+  -- the statement `toStmt` gives is the reading
+  have hs1 : s1' = s1 := by
+    unfold toStmt at ht
+    split at ht
+    · cases ht
+    · split at ht
+      · rename_i hpre
+        -- an extension word is not an instruction of the core
+        exfalso
+        simp only [Arch.decode] at hd'
+        unfold isPrefix at hpre
+        simp only [decide_eq_true_eq] at hpre
+        generalize ws.getD 0 0 = w at *
+        have hn : op2OfNibble (w.extractLsb' 12 4) = none := by
+          have : w.extractLsb' 12 4 = 1 := by bv_decide
+          rw [this]; rfl
+        have h1 : ¬ (w &&& 0xe000 = 0x2000) := by bv_decide
+        have h2 : ¬ (w &&& 0xfc00 = 0x1000) := by bv_decide
+        rw [if_neg h1, if_neg h2, hn] at hd'
+        cases hd'
+      · split at ht
+        · cases ht
+        · rw [hr] at ht; exact (Option.some.inj ht).symm
+  subst hs1
+  rw [hms] at hm1
+  cases hm1
+  exact ⟨hms, hdec, s2, hr2, hm2⟩
+
+/-! non-vacuity -/
+example : toStmt 0x1000 0x4035 0x0001 0 = some ⟨"mov", 16, [.imm 1, .reg 5]⟩ := by decide +kernel
+example : encode { address := 0x1000 } ⟨"mov", 16, [.imm 1, .reg 5]⟩ = .ok [0x4315] := by decide
+example : reading 0x1000 0x4315 0 0 = some ⟨"mov", 16, [.imm 1, .reg 5]⟩ := by decide +kernel
+example : toStmt 0x1000 0xd232 0 0 = none ∧ reading 0x1000 0xd232 0 0 = some ⟨"bis", 16, [.imm 8, .reg 2]⟩ := by
+  constructor <;> decide +kernel
+example : toStmt 0x1000 0x3c01 0 0 = none := by decide +kernel
+example : (disasm 0x1000 0x4035 0x1234 0 0).text = "mov.w #0x1234, r5".toList ∧ (disasm 0x1000 0x4035 0x1234 0 0).len = 4 := by
+  constructor <;> decide +kernel
+
+end NakenVerif.Msp430
